@@ -91,10 +91,41 @@ def run_comp(w, cops):
     return ops, answers
 
 
+_PLAIN = (R.AdapterRegistry, R.VerifyingAdapterRegistry)
+
+
+def _subclasses(kind):
+    """registry classes whose instances have a false truth value: ``len`` = __len__ counts the registry's own
+    registrations (false while it has none), ``false`` = __bool__ is always False.  The property does not
+    depend on the truth value of a registry; the model ignores it."""
+    AR, VAR = _PLAIN
+    if kind == "len":
+        class CountedAR(AR):
+            def __len__(self):
+                return sum(1 for _ in self.allRegistrations())
+
+        class CountedVAR(VAR):
+            def __len__(self):
+                return sum(1 for _ in self.allRegistrations())
+        return CountedAR, CountedVAR
+    if kind == "false":
+        class FalsyAR(AR):
+            def __bool__(self):
+                return False
+
+        class FalsyVAR(VAR):
+            def __bool__(self):
+                return False
+        return FalsyAR, FalsyVAR
+    return _PLAIN
+
+
 out = []
 for case in payload["cases"]:
     try:
         w = R.World(case)
+        # reg_common.run_op looks the registry classes up in its module namespace
+        R.AdapterRegistry, R.VerifyingAdapterRegistry = _subclasses(case.get("regclass"))
         if case.get("stream") == "comp":
             ops, answers = run_comp(w, case["cops"])
             out.append({"specs": w.observed_specs(),
